@@ -297,7 +297,12 @@ XTargets(fam) ==
   CASE fam = "dv" -> {"dvb"} [] fam = "dvb" -> {"dv"} [] fam = "bcsr" -> {"csr"} [] fam = "banded" -> {"csr"}
     [] fam = "csr" -> {"banded", "cscr"} [] fam = "cscr" -> {"csr"} [] OTHER -> {}
 
-XShape(f1, f2, sh) == IF f1 = "bcsr" THEN [r |-> 2 * sh.r, c |-> 2 * sh.c, pat |-> Expand2(sh.pat)] ELSE sh
+\* the pattern after the conversion: bcsr -> csr expands the blocks; csr -> banded stores whole bands, so every position of the
+\* matrix that lies on a band of some entry becomes an entry (and stays one when converted back)
+XShape(f1, f2, sh) ==
+  IF f1 = "bcsr" THEN [r |-> 2 * sh.r, c |-> 2 * sh.c, pat |-> Expand2(sh.pat)]
+  ELSE IF f2 = "banded" THEN [sh EXCEPT !.pat = BandPat(sh.r, sh.c, Offsets(sh))]
+  ELSE sh
 
 \* contents of the value array after the conversion: the values are copied entry by entry, so a uniform source stays
 \* uniform - except csr -> banded, whose band arrays are zero wherever a band position is not an entry of the matrix
